@@ -29,7 +29,7 @@ func (v *kvValue) isDeleted() bool {
 	plain := *v.simple.Load()
 	children := v.children.Len()
 	token := v.lease.Load()
-	deleted := (plain == nil) && (children == 0) && (token == 0)
+	deleted := (len(plain) == 0) && (children == 0) && (token == 0) // an empty value is treated as absent, like ListKeys does
 	return deleted
 }
 
